@@ -189,6 +189,7 @@ type sideMon struct {
 	inboundReset   map[uint16]bool   // a reset request naming this stream was delivered to this endpoint
 	resetPerformed map[uint32]bool   // request sequence numbers this endpoint answered with "performed"
 	replayedReset  map[uint16]int64  // stream -> event seq of a delivered reset request whose number had already been performed
+	replayedResetAt map[uint16]time.Duration // ... and the virtual time at which the endpoint read it from its transport
 	fwdNoStream map[uint16]bool // a FORWARD-TSN named this stream when the endpoint had no such stream
 	fwdUMID  map[uint16]uint32 // highest unordered MID listed by an I-FORWARD-TSN delivered here, per stream
 	ackedBytes map[uint16]int // user bytes acknowledged (cumulatively or by gap block) per stream
@@ -672,6 +673,10 @@ func (m *wireMon) onDeliver(to int, p *wirePacket, data []byte) {
 					}
 					for _, sid := range rp.sids {
 						sm.replayedReset[sid] = m.w.evSeq
+						if sm.replayedResetAt == nil {
+							sm.replayedResetAt = map[uint16]time.Duration{}
+						}
+						sm.replayedResetAt[sid] = m.w.now()
 					}
 					m.w.probe("reset-request-replayed")
 				}
